@@ -84,3 +84,19 @@ Definition fresh_for (h : heap) (m : mutation) : bool :=
   match m with MRebindKeys _ news => forallb (fun n => negb (memb (fst n) (dom h))) news | _ => true end.
 Definition well_formed (h : heap) (o : obj) : bool := forallb (fun l => memb l (dom h)) (reach h o).
 Definition shares (h : heap) (a b : obj) : list loc := filter (fun l => memb l (reach h b)) (reach h a).
+
+(* ---------- a producer: deep copy into fresh containers (RDMs.copy, Dataset.copy, deepcopy inside calc_rdm) ---------- *)
+Record fresh_plan := mkPlan { f_data : loc; f_dicts : list (loc * list loc) }.
+Definition all_fresh (f : fresh_plan) : list loc := f_data f :: flat_map (fun p => fst p :: snd p) (f_dicts f).
+Definition cell_or_empty (h : heap) (l : loc) : cell := match hlookup l h with Some (CData z) => CData z | _ => CData 0 end.
+Definition copy_dict_cells (h : heap) (d : loc) (pl : loc * list loc) : heap :=
+  match hlookup d h with
+  | Some (CDict es) =>
+      (fst pl, CDict (map (fun kn => (fst (fst kn), snd kn)) (combine es (snd pl)))) ::
+      map (fun kn => (snd kn, cell_or_empty h (snd (fst kn)))) (combine es (snd pl))
+  | _ => [(fst pl, CDict [])]
+  end.
+Definition copy_cells (h : heap) (o : obj) (f : fresh_plan) : heap :=
+  (f_data f, cell_or_empty h (o_data o)) :: flat_map (fun dp => copy_dict_cells h (fst dp) (snd dp)) (combine (o_dicts o) (f_dicts f)).
+Definition deep_copy (h : heap) (o : obj) (f : fresh_plan) : heap * obj :=
+  (copy_cells h o f ++ h, mkObj (f_data f) (map fst (f_dicts f))).
